@@ -23,6 +23,7 @@ CfgsNoStopBig == { Cfg(n, cap, b, e, "ok", TRUE, TRUE, FALSE, FALSE, FALSE, 0) :
                  n \in {3, 4}, cap \in {0, 1, 3}, b \in {B4, B5}, e \in {"eof", "trunc"} }
 \* Close and external cancel at every point, incl. liveness
 CfgsStop == { Cfg(n, cap, b, "eof", h, TRUE, TRUE, ac, ~ac, FALSE, 0) : n \in {1, 2}, cap \in {0, 1}, b \in {B3}, h \in {"ok", "none"}, ac \in BOOLEAN }
+CfgsStopQ == { Cfg(n, cap, B3, "eof", "ok", TRUE, TRUE, ac, ~ac, FALSE, 0) : n \in {1, 2}, cap \in {0, 1}, ac \in BOOLEAN }
 CfgsStopBig == { Cfg(n, cap, b, e, "ok", TRUE, TRUE, ac, ~ac, FALSE, 0) : n \in {2, 3}, cap \in {0, 1}, b \in {B3, B4, BBad}, e \in {"eof", "trunc"}, ac \in BOOLEAN }
 \* history Judge against the Model (no VIEW: hist is part of the state)
 CfgsHist == { Cfg(2, 1, b, "eof", "ok", TRUE, TRUE, ac, ~ac, FALSE, 1) : b \in {<<D(1), D(0), D(1)>>, <<D(1), BAD>>}, ac \in BOOLEAN }
@@ -31,7 +32,7 @@ CfgsHistBig == { Cfg(n, 1, b, e, h, TRUE, TRUE, ac, ~ac, FALSE, 1) : n \in {1, 2
 \* the pinned deviations, each expected to violate one Judge
 CfgsPinnedLoop == { Cfg(2, 1, B4, "eof", "ok", FALSE, TRUE, FALSE, TRUE, FALSE, 0) }
 CfgsPinnedEof  == { CfgX(1, 1, <<D(1), D(1)>>, "eof", "ok", TRUE, TRUE, FALSE, TRUE, FALSE, FALSE, 0) }
-CfgsPinnedErr  == { Cfg(2, 1, <<D(1), D(0), D(1)>>, "eof", "ok", TRUE, FALSE, TRUE, FALSE, FALSE, 0) }
+CfgsPinnedErr  == { CfgX(2, 1, <<D(1), D(0), D(1)>>, "eof", "ok", TRUE, FALSE, FALSE, TRUE, FALSE, FALSE, 0) }
 
 View == << cfg, started, cancelled, parentCancelled, rpc, ri, rpos, rerr, rpair, readsAfterStop,
            inq, inClosed, wpc, wcur, outq, outClosed, spc, sj, scur, tErr,
